@@ -156,7 +156,7 @@ class C20(Prop):
     title = "Immutable configuration: values change only through authorised, logged mutations"
     fixed_prefix = 1
     quick_budget = 2500
-    thorough_budget = 40000
+    thorough_budget = 30000
     quick_deadline_s = 100
     thorough_deadline_s = 800
     all_branches = (
@@ -200,19 +200,22 @@ class C20(Prop):
             if rng.random() < 0.04:
                 yield self._malformed(rng)
                 continue
+            if rng.random() < 0.06:
+                yield self._scripted(rng)
+                continue
             names = list(range(rng.choice([1, 2, 2, 3, 3, 4])))
             # approval set
             aset = []
             for nm in names:
                 r = rng.random()
-                if r < 0.25:
+                if r < 0.35:
                     aset.append(f"{nm}:*")
-                elif r < 0.55:
+                elif r < 0.6:
                     aset.append(f"{nm}:{rng.choice(self.VALPOOL)}")
             aset_s = ",".join(aset) or "-"
             script = "-"
             if rng.random() < 0.35:
-                script = "".join(rng.choice("aarr...x" if rng.random() < 0.3 else "aarr....") for _ in range(rng.randint(1, 8)))
+                script = "".join(rng.choice("aaarr..x" if rng.random() < 0.4 else "aaarr...") for _ in range(rng.randint(1, 8)))
             lines = [f"adv {aset_s} {script}"]
             nroots = 1 if rng.random() < 0.8 else 2
             count = 0
@@ -233,14 +236,20 @@ class C20(Prop):
                     return rng.choice(approved_vals)
                 return rng.choice(self.VALPOOL + [9, 11])
             nops = rng.choice([2, 4, 6, 8, 8, 10, 12])
+            recent = []         # (genome, gene) pairs a mutate was tried on: rollbacks prefer them
             for _ in range(nops):
                 i = rng.randrange(count) if rng.random() < 0.97 else count + 1
                 nm = rng.choice(names) if rng.random() < 0.93 else len(names) + 1
                 r = rng.random()
                 if r < 0.27:
                     lines.append(f"mutate {i} {nm} {pick_val()}")
-                elif r < 0.42:
+                    recent.append((i, nm))
+                elif r < 0.44:
+                    if recent and rng.random() < 0.75:
+                        i, nm = rng.choice(recent[-3:])
                     lines.append(f"rollback {i} {nm}")
+                    if rng.random() < 0.25:
+                        lines.append(f"rollback {i} {nm}")       # rolling back twice = redo
                 elif r < 0.52:
                     lines.append(f"add {i} {self._gene(rng, nm)}")
                 elif r < 0.58:
@@ -254,6 +263,8 @@ class C20(Prop):
                     ms = rng.sample(names + [len(names) + 1], min(k, len(names) + 1))
                     muts = ",".join(f"{m_}:{pick_val()}" for m_ in ms) or "-"
                     lines.append(f"replicate {i} {rng.randint(0, 1)} {muts}")
+                    for m_ in ms:
+                        recent.append((count, m_))
                     count += 1          # may over-count when the callback raises: later ids are then 'bad'
                 elif r < 0.94:
                     k = rng.choice([0, 1, 2])
@@ -265,6 +276,23 @@ class C20(Prop):
                 else:
                     lines.append(f"getv {i} {nm}")
             yield {"lines": lines, "note": "random"}
+
+    def _scripted(self, rng):
+        """every gate decision comes from the script (approve / refuse / raise), on one gene of one lineage"""
+        script = "".join(rng.choice("aarx") for _ in range(rng.randint(3, 9)))
+        lines = [f"adv - {script}", f"new 0 {rng.choice('01')} {rng.choice('001')} 0:1:s:1:2 1:2:h:0:2"]
+        count = 1
+        for _ in range(rng.randint(3, 9)):
+            i = rng.randrange(count)
+            r = rng.random()
+            if r < 0.4:
+                lines.append(f"mutate {i} {rng.choice('001')} {rng.choice([3, 5, 7])}")
+            elif r < 0.75:
+                lines.append(f"rollback {i} 0")
+            else:
+                lines.append(f"replicate {i} 1 " + rng.choice(["0:7", "0:7,1:5", "-", "1:5"]))
+                count += 1
+        return {"lines": lines, "note": "scripted gate answers"}
 
     def _malformed(self, rng):
         junk = ["mutate", "mutate 0", "mutate x 1 2", "add 0 1:2:z:0:2", "add 0 1:2:s:0:9", "expr 0 0 7", "frob 1 2",
@@ -290,8 +318,19 @@ class C20(Prop):
             for k in range(1, depth + 1):
                 for ops in itertools.product(alpha, repeat=k):
                     cases.append({"lines": [f"adv {a}", nw] + list(ops), "note": f"exhaustive depth {k}"})
-        return [{"name": f"all histories of depth <= {depth} over a 10-operation alphabet on a 2-gene parent and its "
-                         f"first child x {len(cfgs)} gate configurations", "cases": cases}]
+        spaces = [{"name": f"all histories of depth <= {depth} over a 10-operation alphabet on a 2-gene parent and its "
+                           f"first child x {len(cfgs)} gate configurations", "cases": cases}]
+        if tier != "quick":
+            # depth 5 on the operations that interact through the log (approve / refuse / rollback / replicate)
+            alpha5 = ["mutate 0 0 7", "mutate 0 0 5", "mutate 0 1 8", "rollback 0 0", "replicate 0 1 0:7",
+                      "rollback 1 0", "mutate 1 0 5"]
+            c5 = []
+            for a, nw in [("0:7,0:1 -", "new 0 0 0 0:1:s:1:2 1:2:c:0:3"), ("- -", "new 1 none 0 0:1:s:1:2 1:2:c:0:3")]:
+                for ops in itertools.product(alpha5, repeat=5):
+                    c5.append({"lines": [f"adv {a}", nw] + list(ops), "note": "exhaustive depth 5"})
+            spaces.append({"name": "all histories of depth 5 over a 7-operation mutate/rollback/replicate alphabet x 2 gate "
+                                   "configurations", "cases": c5})
+        return spaces
 
     # --- implementation ---------------------------------------------------------------------------------
     def run_impl(self, case):
